@@ -1,3 +1,4 @@
+import NgVerif.Proofs.Source
 import NgVerif.Proofs.Pyramid
 /-
   C06 — Each pyramid level equals the whole previous level downscaled once.
@@ -58,5 +59,12 @@ theorem chunk_size_one_on_halved_axis : plan ⟨8, 4, 1, 2⟩ 0 = .error .zeroDi
 example : ∀ n, 8 * n < 32 → ∃ parts, plan ⟨64, 32, 8, 8⟩ n = .ok parts :=
   fun n hn => compatible_plan_succeeds ⟨64, 32, 8, 8⟩
     ⟨by decide, by decide, by decide, by decide, ⟨4, by decide⟩, Or.inr (by decide)⟩ n hn
+
+/-- TRANSLATED SOURCE. `half_chunk` and `chunk_fetch_factor` as they stand in /repo's source (translated on every
+    run) are the `half` and `fetch` of the axis model all C06 theorems are about -/
+theorem source_chunk_arithmetic_is_the_model (a : Pyramid.Axis) :
+    Generated.Src.pyrHalfChunk (osz := a.oc) (f := Pyramid.factor a) = ((Pyramid.half a : Nat) : Int) ∧
+    Generated.Src.pyrFetchFactor (nsz := a.nc) (hc := Pyramid.half a) = ((Pyramid.fetch a : Nat) : Int) :=
+  Source.pyramid_arith_eq_model a
 
 end NgVerif.Props.C06
